@@ -1,7 +1,7 @@
 (* Correspondence for C02: Plan.Vars.variables_list / forwarded vs planner.getVariablesList (verif export) and the
    variables that actually accompanied the step's sub-request. *)
 From Coq Require Import List String Bool Arith.
-From Pebbles Require Import Base.Json Plan.Vars Plan.Header Merge.Model Plan.Steps Plan.StepsProofs Corr.C07.
+From Pebbles Require Import Base.Json Plan.Vars Plan.Header Merge.Model Plan.Steps Plan.StepsProofs Plan.StepsCount Corr.C07.
 Import ListNotations.
 Open Scope string_scope.
 Open Scope list_scope.
@@ -97,7 +97,10 @@ Definition plan_agrees (c : plancase) : bool :=
   match plan_root 64 (pTm c) (pPs c) (pUrls c) (pParent c) (pInput c), pObs c with
   | Ok m, Some o =>
       steps_match m o &&
-      (if in_domain c then forallb (fun st => (s_url st =? internal_service) || owned_stepb (pTm c) st) o else true)
+      (if in_domain c then forallb (fun st => (s_url st =? internal_service) || owned_stepb (pTm c) st) o else true) &&
+      (* nothing lost, nothing twice: the steps of the real plan hold as many field selections as the sanitized
+         operation (no interface-typed parent on the way) *)
+      (if in_domain c && forallb (conc (pPs c)) (pInput c) then Nat.eqb (scnt_l o) (cnt_l (pInput c)) else true)
   | Err, None => true
   | OutOfModel, _ => true
   | _, _ => false
